@@ -31,6 +31,14 @@ Qed.
 Lemma wf_restores : forall T, wf_tables T = true -> t_restores_attrs T = true.
 Proof. intros T H. unfold wf_tables in H. apply andb_prop in H. tauto. Qed.
 
+(* whatever the exception object carried under that name, afterwards it holds the new value *)
+Lemma assoc_set_attr : forall k v d, assoc k (set_attr k v d) = Some v.
+Proof.
+  induction d as [|[k' v'] d IH]; simpl.
+  - rewrite text_eqb_refl. reflexivity.
+  - destruct (text_eqb k k') eqn:E; simpl; rewrite ?text_eqb_refl, ?E; auto.
+Qed.
+
 Lemma forallb_set_attr : forall (P : text * xval -> bool) k v d,
   forallb P d = true -> P (k, v) = true -> forallb P (set_attr k v d) = true.
 Proof.
